@@ -35,7 +35,7 @@ BOUND = {
     "quick": "every catalog trigger x {blank, comment} at every admissible boundary, trailing whitespace on every line, 2 re-indents, CRLF, BOM, appended code; renaming for name-insensitive linters",
     "thorough": "plus all ordered pairs (blank at i, comment at j) for every example of <= 25 lines",
 }
-MIN_NONTRIVIAL = {"quick": 600, "thorough": 2500}
+MIN_NONTRIVIAL = {"quick": 600, "thorough": 2000}
 CM = {"python": "#", "typescript": "//", "javascript": "//", "rust": "//"}
 APPEND = {
     "python": "\n\ndef appended_unrelated_helper(value):\n    return value\n",
@@ -274,7 +274,7 @@ def run_item(item) -> Acc:
             nt = re.sub(rf"\b{ident}\b", ident + "_rn", text)
             check("rename-local", ident, nt, lambda x: x, with_col=False)
     if item["pairs"] and nl <= 25:
-        ok = [b for b in range(1, nl + 2) if b not in bad and b > hdr]
+        ok = [b for b in range(1, nl + 2) if b not in bad and b > hdr and not (name in HEADER_SENSITIVE and b == 1)]
         for i in ok[::2]:
             for j in ok[1::3]:
                 L2 = lines[: i - 1] + [""] + lines[i - 1 :]
@@ -287,7 +287,7 @@ def run_item(item) -> Acc:
         if item.get("extra") is not None:
             sig["example"] = EXTRA[item["extra"]][2]
             c0["extra"] = item["extra"]
-        if name == "dry" and kind in ("blank-line", "comment-line", "whitespace-only-line"):
+        if name == "dry" and kind in ("blank-line", "comment-line", "whitespace-only-line", "blank+comment"):
             # one root cause: which of the overlapping duplicate windows is kept depends on the
             # physical line spans, so a line inserted inside a duplicated block re-selects them
             sig = {"linter": "dry", "edit": "line-inserted-inside-duplicated-block", "mode": "duplicate-windows-reselected"}
